@@ -21,6 +21,7 @@ pub fn tpl(name: &str) -> String {
         "KM" => "{k}{msg}",
         "D" => "{wide_bar} {pos}/{len}",
         "CP" => "{pos} {len} {percent}",
+        "P" => "{pos}",
         other => other, // raw template text
     }.to_string()
 }
@@ -248,7 +249,8 @@ pub fn run_history(hist: &Value, out: &mut dyn Write) {
     let mpo = cfg.get("mp").and_then(|m| m.as_object());
     let mphid = mpo.map(|m| m.get("target").and_then(|x| x.as_str()) == Some("hidden") || m.get("target").and_then(|x| x.as_str()) == Some("pipe")).unwrap_or(false);
     let align = mpo.and_then(|m| m.get("align")).and_then(|x| x.as_str()).unwrap_or("top").to_string();
-    rec.insert("cfg".into(), json!({"w": cfg["w"].as_u64().unwrap_or(80), "h": cfg["h"].as_u64().unwrap_or(24), "multi": mpo.is_some(), "mphid": mphid, "align": align}));
+    rec.insert("cfg".into(), json!({"w": cfg["w"].as_u64().unwrap_or(80), "h": cfg["h"].as_u64().unwrap_or(24), "multi": mpo.is_some(), "mphid": mphid, "align": align,
+        "x": cfg.get("x").cloned().unwrap_or(json!({}))}));
     rec.insert("calls".into(), calls);
     rec.insert("q".into(), json!(q));
     rec.insert("t".into(), json!(0));
@@ -260,7 +262,7 @@ pub fn run_history(hist: &Value, out: &mut dyn Write) {
     let ops = hist["ops"].as_array().cloned().unwrap_or_default();
     for (i, op) in ops.iter().enumerate() {
         let dt = op.get("dt").and_then(|x| x.as_u64()).unwrap_or(0); // microseconds
-        clock::advance(dt * 1000 + op.get("dtn").and_then(|x| x.as_u64()).unwrap_or(0));
+        clock::advance(dt * 1000 + op.get("dtn").and_then(|x| x.as_u64()).unwrap_or(0) + op.get("dts").and_then(|x| x.as_u64()).unwrap_or(0) * 1_000_000_000);
         let failed_before = world.spy.0.lock().unwrap_or_else(|e| e.into_inner()).failed;
         let r = catch_unwind(AssertUnwindSafe(|| exec(&mut world, op)));
         let (ret, panic) = match r {
@@ -293,6 +295,7 @@ pub fn run_history(hist: &Value, out: &mut dyn Write) {
         rec.insert("calls".into(), calls);
         rec.insert("q".into(), json!(q));
         rec.insert("t".into(), json!(clock::now_rel() / 1000));
+        rec.insert("tn".into(), limbs(clock::now_rel()));
         rec.insert("ret".into(), json!(ret));
         rec.insert("panic".into(), json!(panic));
         rec.insert("get".into(), getters(&world, b));
